@@ -389,6 +389,17 @@ int main(int argc, char** argv) {
   f8.group = "SQ";
   f8.chunk = 16;
   f8.rule = "all ordered pairs (S1,S2) of 8 strings (empty, 1, 2, 3, 12, 39, 40 bytes, one with an escape) as existing / new value at the root, in a member, in a nested member next to a sibling holding S1, in an array; x 4 states of the existing document (parsed / maps / maps after add+remove / API-built with constant strings whose bytes must not change)";
+  // SZ: scalar over scalar: every ordered pair of scalar spellings (zeros of both signs and kinds, equal values of
+  // different kinds, extremes, literals, strings that look like numbers): the text's value replaces the existing one WHOLE
+  static const char* kScal[] = {"0", "-0", "0.0", "-0.0", "0e0", "-0e5", "0.000", "1", "-1", "1.0", "-1.0", "1e0", "18446744073709551615", "9223372036854775808", "-9223372036854775808", "1.5", "-1.5", "5e-324", "-5e-324",
+                                "1e-400", "-1e-400", "true", "false", "null", "\"\"", "\"s\"", "\"0\"", "\"-0.0\"", "[]", "{}"};
+  static const unsigned NSCAL = sizeof(kScal) / sizeof(kScal[0]);
+  vr::Family f10;
+  f10.name = "SZ_scalar_over_scalar";
+  f10.count = (uint64_t)NSCAL * NSCAL * 4 * 4;
+  f10.group = "SZ";
+  f10.chunk = 64;
+  f10.rule = "all ordered pairs (existing, text) of " + std::to_string(NSCAL) + " scalar spellings (integer / double zeros of both signs in 7 spellings, +-1 as integer and double, 2^64-1, +-2^63, +-1.5, smallest subnormals, underflowing +-1e-400, literals, strings that look like numbers, empty containers) in 4 positions (root, member, nested member next to an untouched sibling, array element) x 4 states of the existing document: the result is bit-identical to the text's value (number kind and sign of zero included)";
 
   // SF: a REJECTED ParseSchema, then continued use. T1 is every proper prefix (and the text with one byte garbled) of a
   // schema text; its error must be reported and the document must stay a valid tree; the next, valid ParseSchema must
@@ -474,6 +485,35 @@ int main(int argc, char** argv) {
       run((SimpleDoc*)nullptr, "simple");
 #endif
       (void)re;
+      return;
+    }
+    if (f.name[1] == 'Z') {
+      int emode = (int)(idx % 4);
+      idx /= 4;
+      unsigned shape = (unsigned)(idx % 4);
+      idx /= 4;
+      std::string s1 = kScal[idx / NSCAL], s2 = kScal[idx % NSCAL];
+      std::string et, tt;
+      switch (shape) {
+        case 0: et = s1; tt = s2; break;
+        case 1: et = "{\"a\":" + s1 + "}"; tt = "{\"a\":" + s2 + "}"; break;
+        case 2: et = "{\"a\":{\"b\":" + s1 + "},\"c\":" + s1 + "}"; tt = "{\"a\":{\"b\":" + s2 + "}}"; break;
+        default: et = "{\"a\":[" + s1 + "," + s1 + "]}"; tt = "{\"a\":[" + s2 + "]}"; break;
+      }
+      ref::Result re = ref::parse(et), rt = ref::parse(tt);
+      if (!re.ok || !rt.ok) {
+        ctx.violation("generator_invalid", "generator_invalid", tt, "harness error: generated text is not valid");
+        return;
+      }
+      ctx.eval();
+      ctx.nontriv();
+      if (ctx.want_sample) ctx.sample("E=" + et + " T=" + tt + " state " + std::to_string(emode));
+      std::vector<const std::string*> ts1 = {&tt};
+      std::vector<const ref::Value*> Ts1 = {&rt.v};
+      apply<PoolDoc>(et, ts1, re.v, Ts1, "pool", ctx, emode);
+#if HAVE_ASAN
+      apply<SimpleDoc>(et, ts1, re.v, Ts1, "simple", ctx, emode);
+#endif
       return;
     }
     if (f.name[1] == 'Q') {
@@ -652,7 +692,7 @@ int main(int argc, char** argv) {
 #endif
   };
 
-  std::vector<vr::Family> fams = {f1, f2, f3, f4, f5, f6, f7, f8, f9};
+  std::vector<vr::Family> fams = {f1, f2, f3, f4, f5, f6, f7, f8, f9, f10};
   if (args.replay) return R.replay_one(fams, check);
   const std::string only = args.get("only");
   for (auto& f : fams)
